@@ -238,7 +238,7 @@ where
     }
 
     fn sleep(&mut self, spi: &mut SPI, _delay: &mut DELAY) -> Result<(), SPI::Error> {
-        self.set_sleep_mode(spi, DeepSleepMode::Normal)?;
+        self.set_sleep_mode(spi, DeepSleepMode::Mode1)?;
         Ok(())
     }
 
